@@ -11,7 +11,7 @@
 (*   PositionsAgree - the reference semantics itself gives the same        *)
 (*                 observation in every position (sanity of the wrappers)   *)
 (***************************************************************************)
-EXTENDS TwigSyntax, Json
+EXTENDS C08Reader, Json
 
 CONSTANTS RichLeaves,    \* TRUE: leaves also include attribute/index access, filters, tests, function calls
           MaxOps,        \* trees with 0..MaxOps binary operators
@@ -198,4 +198,9 @@ Spec == Init /\ [][Next]_cs
 IsTree == "e" \in DOMAIN cs
 Emit == IsTree => PrintT(ToJson(CaseOf(cs)))
 ModelOK == (IsTree /\ NOps(cs.e) <= PosOps) => PositionsAgree(cs)
+\* the printer and the table agree: reading either spelling gives the tree back
+TableSound == (IsTree /\ PureBinary(cs.e)) =>
+                 /\ Read(UE(cs.e, LMin)) = cs.e
+                 /\ Read(UE(cs.e, LFull)) = cs.e
+                 /\ Read(UE(cs.e, [par |-> "min", sp |-> "tight"])) = cs.e
 =============================================================================
